@@ -140,7 +140,11 @@ func applyOp(fs hackpadfs.FS, o Op) (out Out) {
 		out.Err = hackpadfs.Chmod(fs, o.P, o.Perm)
 	case "Chtimes":
 		tm := time.Unix(o.Mtime, 0)
-		out.Err = hackpadfs.Chtimes(fs, o.P, tm, tm)
+		mt := tm
+		if o.Mtime == 0 {
+			mt = time.Time{} // the zero time: "leave the modification time as it is" (os.Chtimes)
+		}
+		out.Err = hackpadfs.Chtimes(fs, o.P, tm, mt)
 	case "Stat":
 		info, err := hackpadfs.Stat(fs, o.P)
 		out.Err = err
@@ -464,6 +468,9 @@ func (g *fsGen) draw() Op {
 		o.Perm = g.perm()
 	case "Chtimes":
 		o.Mtime = int64(1000000000 + 1000*g.step + c.Draw(500))
+		if c.Chance(1, 6) {
+			o.Mtime = 0 // zero time.Time for the modification time: unchanged
+		}
 	}
 	return o
 }
@@ -483,7 +490,7 @@ func related(a, b string) bool { // a is ancestor-or-equal or descendant of b
 func (p pinTracker) update(o Op, ok bool) {
 	switch {
 	case o.Kind == "Chtimes":
-		if ok {
+		if ok && o.Mtime != 0 {
 			p[o.P] = o.Mtime
 		}
 	case o.Kind == "Chmod" || !o.Mutating():
